@@ -36,6 +36,10 @@ DICT_API = {
     "__eq__": dict(params=["other"], kind="read"),
     "__repr__": dict(params=[], kind="read"),
     "__str__": dict(params=[], kind="read"),
+    # attribute syntax of the attribute-access dict classes (C18): same contract as the item operation
+    "__setattr__": dict(params=["key", "value"], kind="mutator", alias="__setitem__", attr=True),
+    "__delattr__": dict(params=["key"], kind="mutator", alias="__delitem__", attr=True),
+    "__getattr__": dict(params=["key"], kind="read", alias="__getitem__", attr=True),
 }
 LIST_API = {
     "__setitem__": dict(params=["key", "value"], kind="mutator"),
@@ -272,7 +276,19 @@ def run_instance(eng, prover, inst, props):
     pre = st.copy()
     info = core.node(type("C", (), {"eng": eng})(), pre, s.self_)
     n, rn, rid = info["n"], info["rn"], info["rid"]
-    exp = Expect(eng, s.cls, kind, inst.meth, a)
+    alias = spec.get("alias", inst.meth)
+    if spec.get("attr"):
+        # C18: a key that is neither a protected internal name nor a dunder (and, for reads, not an attribute of
+        # the class: __getattr__ is only reached when ordinary lookup failed)
+        prot = eng.class_attr(st.copy(), s.cls, "_PROTECTED_KEYS", s.self_, True)[0][1]
+        k = a["key"]
+        st.assume(smt.is_VStr(k), z3.Not(smt.F("str_startswith", Val, Val, BoolS)(k, to_val(Const("__")))))
+        for pk in sorted(prot.v):
+            st.assume(k != to_val(Const(pk)))
+        pre = st.copy()
+    exp = Expect(eng, s.cls, kind, alias, a)
+    if inst.meth == "__getattr__":
+        exp.raises = [("AttributeError", c) for (e, c) in exp.raises]
     outs = run_with_kwargs(eng, st, fi, [s.self_] + vals, kw)
     V0 = pre.sel("View", n)
     R0 = pre.sel("Res", rid)
@@ -294,7 +310,7 @@ def run_instance(eng, prover, inst, props):
         VendRoot = x.sel("View", rn)
         if inst.operand == "synced":
             a["other"] = x.sel("View", z3.IntVal(s.o2.addr))
-            exp = Expect(eng, s.cls, kind, inst.meth, a)
+            exp = Expect(eng, s.cls, kind, alias, a)
         ctx = dict(path=npaths)
 
         if "C10" in props:
@@ -306,6 +322,15 @@ def run_instance(eng, prover, inst, props):
                 if e[0] == "lock-exit":
                     prover.goal(f"C10/{base}/release-only-held", prefix_state(x, e), e[3] > 0, info=ctx)
 
+        if "C18" in props:
+            prot_names = None
+            for e in x.events:
+                if e[0] == "attr-store":
+                    if prot_names is None:
+                        pk = eng.class_attr(x.copy(), x.rec(ObjV(e[1])).cls, "_PROTECTED_KEYS", ObjV(e[1]), True)[0][1]
+                        prot_names = pk.v
+                    ok = e[2] in prot_names or e[2].startswith("__")
+                    prover.structural(f"C18/{base}/internal-attribute-is-protected", ok, x, dict(ctx, name=e[2], where=e[3]))
         if "C16" in props:
             check_c16(eng, prover, base, x, res, s, ctx, inst.meth)
         if "C11" in props:
@@ -346,6 +371,8 @@ def run_instance(eng, prover, inst, props):
             # applied to the resource content AT THE TIME OF THE CALL (which must exist and hold the receiver's
             # position): view'(root) ~ put_in(R0, self, op(sub_of(R0, self)))
             pos = VRef(n)
+            if "C18" in props:
+                pass
             if inst.role == "root":
                 cur = R0
                 mk = lambda y: y
@@ -474,6 +501,14 @@ def run_task(eng, prover, task, out):
             out["functions"][fi.qualname] = fi.sha()
         except Unsupported as e:
             out["unsupported"].append({"instance": f"{task['cname']}.{m}/{task['role']}", "reason": str(e)})
+    if task.get("rename_to"):
+        # the obligations of an aliased operation (attribute syntax) belong to the property that asked for them
+        for name in list(prover.obs):
+            pid_, rest = name.split("/", 1)
+            if pid_ != task["rename_to"]:
+                o = prover.obs.pop(name)
+                o.name = task["rename_to"] + "/" + pid_.lower() + ":" + rest
+                prover.obs[o.name] = o
     for q in list(eng.inlined) + list(eng.used_contracts):
         f = find_function(eng, q)
         if f is not None:
